@@ -141,7 +141,7 @@ class CallMixin:
             subs = [k for k in self.w.subclasses(c) if (self.w.find_method(k, meth) or (None,))[0] == c]
             subs = [k for k in subs if not k.startswith('$')]
             cond = z3.And(V.is_obj(recv), z3.Or([clsof(V.ref(recv)) == self.cid(k) for k in subs]))
-            a, rest = self.split(rest, cond)
+            a, rest = self.split(rest, cond, strong=True)
             if a is not None:
                 if self.w.is_property(c, meth):
                     raise Unsupported('calling a property')
@@ -167,7 +167,7 @@ class CallMixin:
         if implicit:
             a, b_ = self.split(rest, V.is_obj(recv))
             if a is not None:
-                raise Unsupported('call of an object without a __call__ contract')
+                self.unsupported(a, 'call of an object without a __call__ contract')
             out.extend(exc(b_, 'TypeError'))
             return out
         # attribute holding a callable? not supported
@@ -266,9 +266,17 @@ class CallMixin:
             return exc(st, err)
         self.inlined.add(qual)
         saved = (dict(st.loc), st.mod, st.cls, st.fn, st.depth)
+        entry = st.fork()
         st.loc, st.mod, st.cls, st.fn, st.depth = loc, mi, (ci.name if ci else None), qual, st.depth + 1
         out = []
-        for s, o in self.run(fn.body, st):
+        try:
+            results = list(self.run(fn.body, st))
+        except Unsupported:
+            # a helper outside the subset only matters if this call can actually happen
+            if self.impossible(entry, z3.BoolVal(True)):
+                return []
+            raise
+        for s, o in results:
             s.loc, s.mod, s.cls, s.fn, s.depth = dict(saved[0]), saved[1], saved[2], saved[3], saved[4]
             if o is None:
                 out.append((s, 'ok', NONE))
